@@ -177,6 +177,15 @@ def check(ck, sl, errors):
                         continue
                     if provably_str(v):
                         continue
+                    try:
+                        from rules import common as _cmw
+                        from vlib.cfg import cfg_of as _cfgw
+                        _gw = _cfgw(fi)
+                        _rn = _cmw._node_of(_gw, r)
+                        if _rn is not None and _cmw._jkind(prog, fi, _rn, v) == "str":
+                            continue        # (a local bound only to string-typed expressions)
+                    except AnalysisError:
+                        pass
                     sites = None
                     if isinstance(v, ast.Subscript) and dump(v.value) == "self.args" and isinstance(v.slice, ast.Constant) and isinstance(v.slice.value, int):
                         sites = _ctor_arg_sites(prog, ci, index=v.slice.value)
@@ -257,7 +266,11 @@ def check(ck, sl, errors):
                     todo.append(prog.classes[b])
                 elif isinstance(b, str):
                     ext.append(b[4:] if b.startswith("ext:") else b)
-        if not ext or not any(fi.cls is ci for fi in sl.values()):
+        if not ext:
+            continue
+        own_in_slice = any(fi.cls is ci for fi in sl.values())
+        in_slice = set(fi.cls.fq for fi in sl.values() if fi.cls is not None)
+        if not own_in_slice and not any(fq_ != ci.fq and fq_ in in_slice for fq_ in seen_b):
             continue
         std_names = set()
         for b in ext:
@@ -266,13 +279,26 @@ def check(ck, sl, errors):
                 std_names |= set(dir(getattr(importlib.import_module(mod), cls)))
             except Exception:
                 continue
-        for mname, fi in ci.methods.items():
+        # (the methods of the class itself and of its package ancestors: a mix-in listed before the standard-library base shadows it)
+        cands = []
+        for fq_ in sorted(seen_b):
+            ca = prog.classes.get(fq_)
+            # (the class's own methods when it has code in the slice; a package ancestor's - a mix-in - when that has)
+            if ca is not None and ((ca is ci and own_in_slice) or (ca is not ci and fq_ in in_slice)):
+                cands += [(ca, mn_, f_) for (mn_, f_) in ca.methods.items()]
+        done5 = getattr(ck, "_w5_done", None)
+        if done5 is None:
+            done5 = ck._w5_done = set()
+        for (ca, mname, fi) in cands:
             if mname.startswith("__") or mname not in std_names:
                 continue
-            if not _is_new(prog, ci.module, "%s.%s" % (ci.qual, mname)):
+            if not _is_new(prog, ca.module, "%s.%s" % (ca.qual, mname)):
                 continue
+            if (rule, ca.fq, mname) in done5:
+                continue
+            done5.add((rule, ca.fq, mname))
             n5 += 1
-            con = "%s.%s.%s (added override of a standard-library hook)" % (ci.module, ci.qual, mname)
+            con = "%s.%s.%s (added override of a standard-library hook)" % (ca.module, ca.qual, mname)
             if _pure_delegation(fi, mname):
                 ck.ok(rule, con, "logs lazily and delegates to the base implementation with the same arguments", fi.loc())
                 continue
@@ -283,12 +309,12 @@ def check(ck, sl, errors):
                     ck.bad(rule, con, "%s.%s overrides %s, which the serve loop calls when handling a request has failed; its statement `%s` can "
                            "raise in turn (the arguments are evaluated before the logger sees them), and an exception escaping %s ends "
                            "serve_forever: one failing connection stops the server for everybody" % (
-                               ci.module, ci.qual, mname, dump(risky[0])[:70], mname), fi.loc(risky[0]))
+                               ca.module, ca.qual, mname, dump(risky[0])[:70], mname), fi.loc(risky[0]))
                 else:
                     ck.ok(rule, con, "cannot raise (lazy logging only)", fi.loc())
             else:
                 errors.append(AnalysisError("%s.%s overrides the standard-library method %s: the behaviour of the base class the rules rely on is replaced"
-                                    % (ci.module, ci.qual, mname)))
+                                    % (ca.module, ca.qual, mname)))
     ck.ok(rule, "standard-library hooks overridden by classes of the slice", "%d examined" % n5, "")
 
 
